@@ -153,8 +153,10 @@ class Verifier:
         fs = z3.simplify(f)
         if z3.is_true(fs) or f.get_id() in ex.assumed:      # trivially true, or literally one of the hypotheses (same term over unchanged state)
             ob.seconds += time.time() - t0; return
+        already_open = ob.status in ('unknown', 'failed')      # an earlier path instance of this obligation is already undischarged: the verdict cannot
+        # become "discharged" any more, only be sharpened to a counter-model -- spend a short budget and no retries / second opinions on it
         # a fresh (non-incremental) solver per obligation: z3's incremental mode is markedly weaker on quantified goals
-        fs = z3.Solver(); fs.set('timeout', self.timeout_ms)
+        fs = z3.Solver(); fs.set('timeout', 5000 if already_open else self.timeout_ms)
         fs.add(ex.solver.assertions()); fs.add(z3.Not(f))
         r = fs.check()
         dt = time.time() - t0; ob.seconds += dt
@@ -170,6 +172,7 @@ class Verifier:
                 ob.where = 'line %s' % ex.cur_loc
                 ob.smt2 = self.dump(ex, f, oid)
             return
+        if already_open: return
         # unknown: the same query under other random seeds (quantifier instantiation order is seed dependent: a query that normally takes
         # 0.1 s occasionally runs away), short budget each
         if r == z3.unknown:
